@@ -8,7 +8,7 @@ RULE = ("cases = varint/zig-zag/scalar encodes (exhaustive 8-bit; 16-bit exhaust
 
 def corr_runs(ctx):
     return [dict(tag="h_C17", harness="C17", driver="C17", args=[ctx.tier, ctx.seed],
-                 needs_vo=["Model/Varint.vo", "Base/DriverSupport.vo"])]
+                 needs_vo=["Model/Varint.vo", "Model/BitBuffer.vo", "Model/Ans.vo", "Model/BitCoders.vo", "Model/AdaptiveProb.vo", "Base/DriverSupport.vo"])]
 
 def run(ctx):
     V.standard_run(ctx, __import__(__name__))
